@@ -63,6 +63,12 @@ class Conv:
       if isinstance(n.op, bir.Invert): return ('inv', self.expr(n.operand))
       raise Unmodelled('unary ' + type(n.op).__name__)
     if isinstance(n, bir.BinOp):
+      # visit_BinOp (as repaired, F33): an operation folded by the type checker is emitted as its value
+      try:
+        v = int(n._value)
+        if v >= 0: return ('num', max(width(n), v.bit_length(), 1), v)
+      except (AttributeError, TypeError, ValueError):
+        pass
       op = {bir.Add: 'add', bir.Sub: 'sub', bir.Mult: 'mul', bir.Mod: 'mod', bir.BitAnd: 'and', bir.BitOr: 'or',
             bir.BitXor: 'xor', bir.ShiftLeft: 'shl', bir.ShiftRightLogic: 'shr'}.get(type(n.op))
       if op is None: raise Unmodelled('binop ' + type(n.op).__name__)
@@ -168,13 +174,20 @@ class Conv:
   def stmt(self, n):
     bir = self.bir
     if isinstance(n, bir.Assign):
-      if len(n.targets) != 1: raise Unmodelled('multiple targets')
-      self.q.clear()
-      lhs = self.ref(n.targets[0])
-      if lhs[0] == 'scope': raise Unmodelled('scope target')
-      self.q.clear()
-      rhs = self.expr(n.value)
-      return ('assign', 1 if n.blocking else 0, lhs, rhs)
+      # visit_Assign (as repaired, F31): the value is assigned to the LAST target, which is then copied to the
+      # other targets (last but one first): Python evaluates the right-hand side of a chained assignment once
+      def lhs_of(tgt):
+        self.q.clear()
+        l = self.ref(tgt)
+        if l[0] == 'scope': raise Unmodelled('scope target')
+        self.q.clear()
+        return l
+      blk = 1 if n.blocking else 0
+      last = lhs_of(n.targets[-1])
+      out = [('assign', blk, last, self.expr(n.value))]
+      for tgt in reversed(n.targets[:-1]):
+        out.append(('assign', blk, lhs_of(tgt), lhs_of(n.targets[-1])))       # the text of the last target, never cast
+      return out[0] if len(out) == 1 else ('seq',) + tuple(out)
     if isinstance(n, bir.If):
       self.q.clear()
       return ('if', self.expr(n.cond), self.stmts(n.body), self.stmts(n.orelse))
